@@ -267,6 +267,10 @@ type FaultJob struct {
 	// real error values of a pipe without reader, a full device, a closed file
 	SinkKind string      `json:"sink_kind,omitempty"`
 	Reads    []ReadFault `json:"reads,omitempty"`
+	// Nested: a second job that runs from start to end inside this one, at the first read of this one's file
+	// number NestedAt (two reports alive in one process)
+	Nested   *FaultJob `json:"nested,omitempty"`
+	NestedAt int       `json:"nested_at,omitempty"`
 }
 
 type ReaderState struct {
@@ -287,6 +291,7 @@ type FaultRes struct {
 	Writes   int           `json:"writes"`
 	Readers  []ReaderState `json:"readers,omitempty"`
 	Died     string        `json:"died,omitempty"`
+	Nested   *FaultRes     `json:"nested,omitempty"`
 }
 
 type job struct {
